@@ -68,48 +68,141 @@ pub fn c13_circular_swap_n4_k4() { circular::<4, 4>() }
 #[cfg_attr(kani, kani::proof)] #[cfg_attr(kani, kani::unwind(8))]
 pub fn c13_circular_swap_n5_k3() { circular::<5, 3>() }
 
-fn translocate<const N: usize>() {
+/// both implementations on one concrete (range, index) with symbolic contents
+fn translocate_case<const N: usize>(s: usize, e: usize, idx: usize) {
     let orig: [u8; N] = sym_arr();
-    let (s, e, idx): (usize, usize, usize) = (sym(), sym(), sym());
-    // documented preconditions + the function's own assertion
-    assume(idx < N && s < N && e < N && s <= e && idx + (e - s) <= N);
     let (mut p1, mut p2) = (orig, orig);
     translocate_slice(&mut p1, s..e, idx);
     translocate_slice2(&mut p2, s..e, idx);
     assert!(p1 == p2, "translocate_slice and translocate_slice2 disagree");
     assert!(is_permutation_of(&p1, &orig), "translocate_slice does not return a permutation of the same elements");
-    // the slice sits at `idx`
     for k in 0..N {
         if k < e - s { assert!(p1[idx + k] == orig[s + k], "translocated slice is not at the requested index"); }
     }
-    vcover!(idx < s);
-    vcover!(idx > s && e > s);
 }
-fn translocate_single<const N: usize>() {
+fn translocate_single_case<const N: usize>(s: usize, e: usize, idx: usize) {
     let orig: [u8; N] = sym_arr();
-    let (s, e, idx): (usize, usize, usize) = (sym(), sym(), sym());
-    assume(idx < N && s < N && e < N && s <= e && idx + (e - s) <= N);
     let mut p1 = orig;
     translocate_slice(&mut p1, s..e, idx);
     assert!(is_permutation_of(&p1, &orig), "translocate_slice does not return a permutation of the same elements");
     for k in 0..N {
         if k < e - s { assert!(p1[idx + k] == orig[s + k], "translocated slice is not at the requested index"); }
     }
-    vcover!(idx < s);
-    vcover!(idx > s && e > s);
+    // everything else keeps its relative order
+    let mut rest_before = [0u8; N]; let mut rest_after = [0u8; N]; let (mut nb, mut na) = (0, 0);
+    for k in 0..N { if k < s || k >= e { rest_before[nb] = orig[k]; nb += 1; } }
+    for k in 0..N { if k < idx || k >= idx + (e - s) { rest_after[na] = p1[k]; na += 1; } }
+    assert!(nb == na && rest_before == rest_after, "translocate_slice disturbed the order of the other elements");
 }
-/// @verif anchor=translocate_slice bound="length 4; all contents, ranges and indices (in-place implementation alone)"
-#[cfg_attr(kani, kani::proof)] #[cfg_attr(kani, kani::unwind(7))]
-pub fn c13_translocate_single_n4() { translocate_single::<4>() }
-/// @verif anchor=translocate_slice bound="length 3; all contents, ranges and indices; both implementations agree"
+/// all valid (range, index) of a length-3 solution (documented preconditions + the function's own assertion), each as a
+/// concrete case selected by a symbolic index (so the rotations run on concrete bounds); contents symbolic
+/// @verif anchor=translocate_slice bound="length 3; all 17 valid (range, index) cases; all contents; both implementations agree"
 #[cfg_attr(kani, kani::proof)] #[cfg_attr(kani, kani::unwind(6))]
-pub fn c13_translocate_n3() { translocate::<3>() }
-/// @verif anchor=translocate_slice tier=thorough bound="length 4; all contents, ranges and indices; both implementations agree"
+pub fn c13_translocate_n3() {
+    let k: usize = sym();
+    assume(k < 17);
+    if k == 0 { translocate_case::<3>(0, 0, 0); }
+    if k == 1 { translocate_case::<3>(0, 0, 1); }
+    if k == 2 { translocate_case::<3>(0, 0, 2); }
+    if k == 3 { translocate_case::<3>(0, 1, 0); }
+    if k == 4 { translocate_case::<3>(0, 1, 1); }
+    if k == 5 { translocate_case::<3>(0, 1, 2); }
+    if k == 6 { translocate_case::<3>(0, 2, 0); }
+    if k == 7 { translocate_case::<3>(0, 2, 1); }
+    if k == 8 { translocate_case::<3>(1, 1, 0); }
+    if k == 9 { translocate_case::<3>(1, 1, 1); }
+    if k == 10 { translocate_case::<3>(1, 1, 2); }
+    if k == 11 { translocate_case::<3>(1, 2, 0); }
+    if k == 12 { translocate_case::<3>(1, 2, 1); }
+    if k == 13 { translocate_case::<3>(1, 2, 2); }
+    if k == 14 { translocate_case::<3>(2, 2, 0); }
+    if k == 15 { translocate_case::<3>(2, 2, 1); }
+    if k == 16 { translocate_case::<3>(2, 2, 2); }
+}
+/// @verif anchor=translocate_slice bound="length 4; all 36 valid (range, index) cases; all contents (in-place implementation alone)"
 #[cfg_attr(kani, kani::proof)] #[cfg_attr(kani, kani::unwind(7))]
-pub fn c13_translocate_n4() { translocate::<4>() }
-/// @verif anchor=translocate_slice tier=thorough bound="length 5; all contents, ranges and indices"
-#[cfg_attr(kani, kani::proof)] #[cfg_attr(kani, kani::unwind(8))]
-pub fn c13_translocate_n5() { translocate::<5>() }
+pub fn c13_translocate_single_n4() {
+    let k: usize = sym();
+    assume(k < 36);
+    if k == 0 { translocate_single_case::<4>(0, 0, 0); }
+    if k == 1 { translocate_single_case::<4>(0, 0, 1); }
+    if k == 2 { translocate_single_case::<4>(0, 0, 2); }
+    if k == 3 { translocate_single_case::<4>(0, 0, 3); }
+    if k == 4 { translocate_single_case::<4>(0, 1, 0); }
+    if k == 5 { translocate_single_case::<4>(0, 1, 1); }
+    if k == 6 { translocate_single_case::<4>(0, 1, 2); }
+    if k == 7 { translocate_single_case::<4>(0, 1, 3); }
+    if k == 8 { translocate_single_case::<4>(0, 2, 0); }
+    if k == 9 { translocate_single_case::<4>(0, 2, 1); }
+    if k == 10 { translocate_single_case::<4>(0, 2, 2); }
+    if k == 11 { translocate_single_case::<4>(0, 3, 0); }
+    if k == 12 { translocate_single_case::<4>(0, 3, 1); }
+    if k == 13 { translocate_single_case::<4>(1, 1, 0); }
+    if k == 14 { translocate_single_case::<4>(1, 1, 1); }
+    if k == 15 { translocate_single_case::<4>(1, 1, 2); }
+    if k == 16 { translocate_single_case::<4>(1, 1, 3); }
+    if k == 17 { translocate_single_case::<4>(1, 2, 0); }
+    if k == 18 { translocate_single_case::<4>(1, 2, 1); }
+    if k == 19 { translocate_single_case::<4>(1, 2, 2); }
+    if k == 20 { translocate_single_case::<4>(1, 2, 3); }
+    if k == 21 { translocate_single_case::<4>(1, 3, 0); }
+    if k == 22 { translocate_single_case::<4>(1, 3, 1); }
+    if k == 23 { translocate_single_case::<4>(1, 3, 2); }
+    if k == 24 { translocate_single_case::<4>(2, 2, 0); }
+    if k == 25 { translocate_single_case::<4>(2, 2, 1); }
+    if k == 26 { translocate_single_case::<4>(2, 2, 2); }
+    if k == 27 { translocate_single_case::<4>(2, 2, 3); }
+    if k == 28 { translocate_single_case::<4>(2, 3, 0); }
+    if k == 29 { translocate_single_case::<4>(2, 3, 1); }
+    if k == 30 { translocate_single_case::<4>(2, 3, 2); }
+    if k == 31 { translocate_single_case::<4>(2, 3, 3); }
+    if k == 32 { translocate_single_case::<4>(3, 3, 0); }
+    if k == 33 { translocate_single_case::<4>(3, 3, 1); }
+    if k == 34 { translocate_single_case::<4>(3, 3, 2); }
+    if k == 35 { translocate_single_case::<4>(3, 3, 3); }
+}
+/// @verif anchor=translocate_slice tier=thorough bound="length 4; all 36 valid (range, index) cases; both implementations agree"
+#[cfg_attr(kani, kani::proof)] #[cfg_attr(kani, kani::unwind(7))]
+pub fn c13_translocate_n4() {
+    let k: usize = sym();
+    assume(k < 36);
+    if k == 0 { translocate_case::<4>(0, 0, 0); }
+    if k == 1 { translocate_case::<4>(0, 0, 1); }
+    if k == 2 { translocate_case::<4>(0, 0, 2); }
+    if k == 3 { translocate_case::<4>(0, 0, 3); }
+    if k == 4 { translocate_case::<4>(0, 1, 0); }
+    if k == 5 { translocate_case::<4>(0, 1, 1); }
+    if k == 6 { translocate_case::<4>(0, 1, 2); }
+    if k == 7 { translocate_case::<4>(0, 1, 3); }
+    if k == 8 { translocate_case::<4>(0, 2, 0); }
+    if k == 9 { translocate_case::<4>(0, 2, 1); }
+    if k == 10 { translocate_case::<4>(0, 2, 2); }
+    if k == 11 { translocate_case::<4>(0, 3, 0); }
+    if k == 12 { translocate_case::<4>(0, 3, 1); }
+    if k == 13 { translocate_case::<4>(1, 1, 0); }
+    if k == 14 { translocate_case::<4>(1, 1, 1); }
+    if k == 15 { translocate_case::<4>(1, 1, 2); }
+    if k == 16 { translocate_case::<4>(1, 1, 3); }
+    if k == 17 { translocate_case::<4>(1, 2, 0); }
+    if k == 18 { translocate_case::<4>(1, 2, 1); }
+    if k == 19 { translocate_case::<4>(1, 2, 2); }
+    if k == 20 { translocate_case::<4>(1, 2, 3); }
+    if k == 21 { translocate_case::<4>(1, 3, 0); }
+    if k == 22 { translocate_case::<4>(1, 3, 1); }
+    if k == 23 { translocate_case::<4>(1, 3, 2); }
+    if k == 24 { translocate_case::<4>(2, 2, 0); }
+    if k == 25 { translocate_case::<4>(2, 2, 1); }
+    if k == 26 { translocate_case::<4>(2, 2, 2); }
+    if k == 27 { translocate_case::<4>(2, 2, 3); }
+    if k == 28 { translocate_case::<4>(2, 3, 0); }
+    if k == 29 { translocate_case::<4>(2, 3, 1); }
+    if k == 30 { translocate_case::<4>(2, 3, 2); }
+    if k == 31 { translocate_case::<4>(2, 3, 3); }
+    if k == 32 { translocate_case::<4>(3, 3, 0); }
+    if k == 33 { translocate_case::<4>(3, 3, 1); }
+    if k == 34 { translocate_case::<4>(3, 3, 2); }
+    if k == 35 { translocate_case::<4>(3, 3, 3); }
+}
 
 fn gene_conserving(c1: &[u8], c2: &[u8], p1: &[u8], p2: &[u8]) {
     assert!(c1.len() == p1.len() && c2.len() == p2.len(), "child length differs from the parents' length");
@@ -161,8 +254,22 @@ pub fn c13_multipoint_n3_k2() { multipoint::<3, 2>() }
 #[cfg_attr(kani, kani::proof)] #[cfg_attr(kani, kani::unwind(7))]
 pub fn c13_multipoint_n4_k3() { multipoint::<4, 3>() }
 
-/// arithmetic crossover, one coordinate (coordinates are independent): child = alpha * p + (1 - alpha) * q, bit-exactly
-/// @verif anchor=arithmetic_crossover bound="length 1 (per coordinate); all f64 values and alphas"
+/// arithmetic crossover at the endpoints of the combination (one coordinate): alpha = 1 returns the parents, alpha = 0 swaps
+/// them — both genes of the position are conserved across the two children
+/// @verif anchor=arithmetic_crossover bound="length 1 (per coordinate); all finite p, q; alpha in {0, 1}"
+#[cfg_attr(kani, kani::proof)] #[cfg_attr(kani, kani::unwind(4))]
+pub fn c13_arithmetic_endpoints() {
+    let (p, q): (f64, f64) = (sym(), sym());
+    assume(p.is_finite() && q.is_finite());
+    let one: bool = sym();
+    let al = if one { 1.0 } else { 0.0 };
+    let [c1, c2] = arithmetic_crossover(&[p], &[q], &[al]);
+    assert!(c1.len() == 1 && c2.len() == 1, "child length differs from the parents' length");
+    let (w1, w2) = if one { (p, q) } else { (q, p) };
+    assert!(c1[0] == w1 && c2[0] == w2, "arithmetic crossover: at alpha in {0,1} the children must be the parental genes");
+}
+/// the stated combination bit-exactly for every alpha (two float multiplier circuits: expensive)
+/// @verif anchor=arithmetic_crossover tier=thorough bound="length 1 (per coordinate); all f64 values and alphas"
 #[cfg_attr(kani, kani::proof)] #[cfg_attr(kani, kani::unwind(4))]
 pub fn c13_arithmetic_formula() {
     let (p, q, al): (f64, f64, f64) = (sym(), sym(), sym());
